@@ -11,15 +11,34 @@ theorem elig_congr (w w' : World) (u : Nat) (hs : w'.slots = w.slots) (hr : read
     elig w' u = elig w u := by
   simp only [elig, World.interactive, hs, hr]
 
+/-- while an uncaught error unwinds, process_user_command is not called any more (the loop was left by longjmp) -/
+theorem puc_thrown (sc : Scripts) (w : World) (h : w.thrown = true) : processUserCommand sc w = (w, [], false) := by
+  simp [processUserCommand, h]
+
+theorem cmdLoop_thrown (sc : Scripts) (k : Nat) (w : World) (h : w.thrown = true) : cmdLoop sc k w = (w, []) := by
+  cases k with
+  | zero => rfl
+  | succ k => simp [cmdLoop, puc_thrown sc w h]
+
+/-- a command loop that ends without a pending error started without one -/
+theorem cmdLoop_thrown_false (sc : Scripts) (k : Nat) (w : World) (h : (cmdLoop sc k w).1.thrown = false) :
+    w.thrown = false := by
+  cases ht : w.thrown with
+  | false => rfl
+  | true => rw [cmdLoop_thrown sc k w ht] at h; rw [ht] at h; exact h
+
 /-- a call that reports "no more commands" proves that nobody in the table is eligible (before and after it) -/
 theorem puc_false (sc : Scripts) (w : World) (hs : Safe w) (h : (processUserCommand sc w).2.2 = false) :
     (processUserCommand sc w).1.slots = w.slots ∧
-      ∀ u, elig w u = false ∧ elig (processUserCommand sc w).1 u = false := by
+      (w.thrown = false → ∀ u, elig w u = false ∧ elig (processUserCommand sc w).1 u = false) := by
+  cases hthr : w.thrown with
+  | true => rw [puc_thrown sc w hthr]; exact ⟨rfl, fun hh => by cases hh⟩
+  | false =>
   have hsl := getUserCommand_slots w hs
   have hnone := getUserCommand_none w hs
   unfold processUserCommand at h ⊢
-  rw [hs.1] at h ⊢
-  simp only [Bool.false_eq_true, if_false] at h ⊢
+  rw [hs.1, hthr] at h ⊢
+  simp only [Bool.or_self, Bool.false_eq_true, if_false] at h ⊢
   cases hg : getUserCommand w with
   | mk w1 r =>
     rw [hg] at h hsl hnone
@@ -28,7 +47,7 @@ theorem puc_false (sc : Scripts) (w : World) (hs : Safe w) (h : (processUserComm
     | none =>
       dsimp only at hsl hnone ⊢
       obtain ⟨n1, n2⟩ := hnone rfl
-      refine ⟨hsl, fun u => ⟨?_, n1 u⟩⟩
+      refine ⟨hsl, fun _ u => ⟨?_, n1 u⟩⟩
       rw [← elig_congr w w1 u hsl (n2 u)]; exact n1 u
 
 /-- a call that serves user `v`: nobody enters the table, every other ready user stays ready, and the number of
@@ -38,12 +57,16 @@ theorem puc_true (sc : Scripts) (w : World) (hs : Safe w) (v : Nat) (t : List Ch
     (∀ u, w.interactive u = false → (processUserCommand sc w).1.interactive u = false) ∧
     (∀ u, u ≠ v → ready w u = true → ready (processUserCommand sc w).1 u = true) ∧
     turnCount (processUserCommand sc w).1 < turnCount w := by
+  have hthr : w.thrown = false := by
+    cases hthr : w.thrown with
+    | false => rfl
+    | true => rw [puc_thrown sc w hthr] at h; cases h
   have hsl := getUserCommand_slots w hs
   obtain ⟨_, _, g3, g4⟩ := getUserCommand_spec w hs
   have gsome := getUserCommand_some w hs
   unfold processUserCommand at h ⊢
-  rw [hs.1] at h ⊢
-  simp only [Bool.false_eq_true, if_false] at h ⊢
+  rw [hs.1, hthr] at h ⊢
+  simp only [Bool.or_self, Bool.false_eq_true, if_false] at h ⊢
   cases hg : getUserCommand w with
   | mk w1 r =>
     rw [hg] at h hsl g3 g4 gsome
@@ -137,14 +160,17 @@ theorem cmdLoop_not_interactive (sc : Scripts) (k : Nat) (w : World) (hs : Safe 
 
 /-- **the command loop is complete**: with fewer turns inside the table than calls allowed, the loop ends because a
     call found nobody eligible - never because of the bound -/
-theorem cmdLoop_complete (sc : Scripts) (k : Nat) (w : World) (hs : Safe w) (hk : turnCount w < k) :
+theorem cmdLoop_complete (sc : Scripts) (k : Nat) (w : World) (hs : Safe w) (hk : turnCount w < k)
+    (hfin : (cmdLoop sc k w).1.thrown = false) :
     ∀ u, elig (cmdLoop sc k w).1 u = false := by
   induction k generalizing w with
   | zero => omega
   | succ k ih =>
+    have hthr := cmdLoop_thrown_false sc _ w hfin
     obtain ⟨p1, _, _, p4⟩ := processUserCommand_spec sc w hs
     have pf := puc_false sc w hs
     have pt := puc_true sc w hs
+    revert hfin
     unfold cmdLoop
     cases hp : processUserCommand sc w with
     | mk w1 r =>
@@ -152,27 +178,30 @@ theorem cmdLoop_complete (sc : Scripts) (k : Nat) (w : World) (hs : Safe w) (hk 
       rw [hp] at p1 p4 pf pt
       dsimp only at p1 p4 pf pt
       cases b with
-      | false => dsimp only; exact fun u => ((pf rfl).2 u).2
+      | false => dsimp only; intro _; exact fun u => ((pf rfl).2 hthr u).2
       | true =>
         dsimp only
+        intro hfin
         obtain ⟨v, t, rest, q1, _⟩ := p4 rfl
         have := (pt v t rest q1).2.2
-        exact ih w1 p1 (by omega)
+        exact ih w1 p1 (by omega) hfin
 
 /-- **nobody eligible is passed over**: a user eligible when the loop starts is served exactly once in it, or has
     left the table when it ends -/
 theorem cmdLoop_serves (sc : Scripts) (k : Nat) (w : World) (hs : Safe w) (hk : turnCount w < k) (u : Nat)
-    (he : elig w u = true) :
+    (he : elig w u = true) (hfin : (cmdLoop sc k w).1.thrown = false) :
     cmdCount u (cmdLoop sc k w).2 = 1 ∨ (cmdLoop sc k w).1.interactive u = false := by
   induction k generalizing w with
   | zero => omega
   | succ k ih =>
+    have hthr := cmdLoop_thrown_false sc _ w hfin
     have hle := (cmdLoop_spec sc (k + 1) w hs).2.2.1 u
     have hle1 : cmdCount u (cmdLoop sc (k + 1) w).2 ≤ 1 := by
       split at hle <;> omega
     obtain ⟨p1, _, _, p4⟩ := processUserCommand_spec sc w hs
     have pf := puc_false sc w hs
     have pt := puc_true sc w hs
+    revert hfin
     unfold cmdLoop at hle1 ⊢
     cases hp : processUserCommand sc w with
     | mk w1 r =>
@@ -181,10 +210,11 @@ theorem cmdLoop_serves (sc : Scripts) (k : Nat) (w : World) (hs : Safe w) (hk : 
       dsimp only at p1 p4 pf pt hle1
       cases b with
       | false =>
-        have := ((pf rfl).2 u).1
+        have := ((pf rfl).2 hthr u).1
         rw [he] at this; cases this
       | true =>
         dsimp only at hle1 ⊢
+        intro hfin
         obtain ⟨v, t, rest, q1, q2, _⟩ := p4 rfl
         obtain ⟨t1, t2, t3⟩ := pt v t rest q1
         by_cases hv : u = v
@@ -201,7 +231,7 @@ theorem cmdLoop_serves (sc : Scripts) (k : Nat) (w : World) (hs : Safe w) (hk : 
           | false => right; exact cmdLoop_not_interactive sc k w1 p1 u hi1
           | true =>
             have he1 : elig w1 u = true := by simp [elig, hi1, hr1]
-            rcases ih w1 p1 (by omega) he1 with h | h
+            rcases ih w1 p1 (by omega) he1 hfin with h | h
             · left
               rw [cmdCount_append, h]
               have : cmdCount u e1 = 0 := by
